@@ -30,4 +30,98 @@ ShapeOK(in, out) ==
     /\ CountKinds(out, Packaging) <= CountKinds(ResultExpr(in), Packaging)
     /\ \A s \in SubTerms(out) : ~(ConstProj(s) /\ s.a[1].k \in Packaging)
 
+---------------------------------------------------------------------------
+(* change_extension_functions_to_calls (C17): seq.Op(args) -> Op(seq, args) *)
+(* for the known operator names, bottom-up, everywhere; nothing else        *)
+(* changes (keyword arguments of the call are kept).                        *)
+ExtensionNames == {"Select", "SelectMany", "Where", "First", "ResultTTree", "ResultAwkwardArray",
+                   "ResultPandasDF", "Min", "Max", "Sum", "Aggregate", "Count"}
+
+RECURSIVE ToFunctionForm(_)
+ToFunctionForm(t) ==
+    LET u == [t EXCEPT !.a = [i \in 1..Len(t.a) |-> ToFunctionForm(t.a[i])]] IN
+    IF u.k = "call" /\ u.a[1].k = "attr" /\ u.a[1].s \in ExtensionNames
+    THEN T("call", "", u.n + 1, u.p, <<Name(u.a[1].s), u.a[1].a[1]>> \o Tail(u.a))
+    ELSE u
+
+RECURSIVE HasMethodFormOp(_)
+HasMethodFormOp(t) ==
+    \/ (t.k = "call" /\ t.a[1].k = "attr" /\ t.a[1].s \in ExtensionNames)
+    \/ \E i \in 1..Len(t.a) : HasMethodFormOp(t.a[i])
+
+---------------------------------------------------------------------------
+(* aggregate_node_transformer (C19)                                         *)
+Shortcuts == {"len", "Count", "Sum", "Max", "Min"}
+IsShortcut(t) == t.k = "call" /\ t.a[1].k = "name" /\ t.a[1].s \in Shortcuts
+                   /\ t.n = 1 /\ t.p = <<>>
+
+(* Structural clause: out is in with every shortcut call replaced by some   *)
+(* three-argument Aggregate call on the (lowered) sequence; all else equal. *)
+RECURSIVE AggMatch(_, _)
+AggMatch(in, out) ==
+    IF IsShortcut(in) THEN
+        /\ IsCallOf(out, "Aggregate") /\ out.n = 3 /\ out.p = <<>>
+        /\ AggMatch(in.a[2], out.a[2])
+    ELSE /\ in.k = out.k /\ in.s = out.s /\ in.n = out.n /\ in.p = out.p
+         /\ Len(in.a) = Len(out.a)
+         /\ \A i \in 1..Len(in.a) : AggMatch(in.a[i], out.a[i])
+
+(* all integer sequences of length <= 3 over {-2, 0, 3} *)
+TestInts == {-2, 0, 3}
+TestSeqs == {<<>>} \cup {<<a>> : a \in TestInts} \cup {<<a, b>> : a \in TestInts, b \in TestInts}
+              \cup {<<a, b, c>> : a \in TestInts, b \in TestInts, c \in TestInts}
+SeqVal(sq) == VList([i \in 1..Len(sq) |-> VInt(sq[i])])
+Expected(op, sq) ==
+    LET v == SeqVal(sq) IN
+    CASE op \in {"len", "Count"} -> VInt(Len(sq))
+      [] op = "Sum" -> VInt(SumInts(v.e, 1))
+      [] op = "Max" -> VInt(MaxInts(v.e))
+      [] OTHER -> VInt(MinInts(v.e))
+
+(* every fold that replaced a shortcut computes the right thing on every test sequence *)
+RECURSIVE FoldsRight(_, _)
+FoldsRight(in, out) ==
+    IF IsShortcut(in) THEN
+        /\ IsCallOf(out, "Aggregate") /\ out.n = 3
+        /\ \A sq \in TestSeqs :
+              SeqOp("Aggregate", SeqVal(sq), <<out.a[3], out.a[4]>>, <<>>, <<>>, <<>>)
+                 = Expected(in.a[1].s, sq)
+        /\ FoldsRight(in.a[2], out.a[2])
+    ELSE Len(in.a) = Len(out.a) /\ \A i \in 1..Len(in.a) : FoldsRight(in.a[i], out.a[i])
+
+RECURSIVE HasShortcut(_)
+HasShortcut(t) == IsShortcut(t) \/ \E i \in 1..Len(t.a) : HasShortcut(t.a[i])
+
+---------------------------------------------------------------------------
+(* extract_metadata / remove_empty_metadata (C15)                           *)
+IsMD(t) == IsCallOf(t, "MetaData") /\ t.n = 2 /\ t.p = <<>>
+
+RECURSIVE StripMD(_)
+StripMD(t) == IF IsMD(t) THEN StripMD(t.a[2])
+              ELSE [t EXCEPT !.a = [i \in 1..Len(t.a) |-> StripMD(t.a[i])]]
+
+(* paths of all wrappers; the dictionary argument itself is not searched *)
+RECURSIVE MDPaths(_, _)
+MDPaths(t, here) ==
+    IF IsMD(t) THEN {here} \cup MDPaths(t.a[2], Append(here, 2))
+    ELSE UNION {MDPaths(t.a[i], Append(here, i)) : i \in 1..Len(t.a)}
+
+IsPrefixOf(p, q) == Len(p) <= Len(q) /\ SubSeq(q, 1, Len(p)) = p
+(* w must come after w2 when w lies inside the source argument of w2 *)
+MustPrecede(w2, w) == w2 # w /\ IsPrefixOf(Append(w2, 2), w)
+
+RECURSIVE LinExt(_, _, _)
+LinExt(t, obs, remaining) ==
+    IF obs = <<>> THEN remaining = {}
+    ELSE \E w \in remaining :
+            /\ At(t, w).a[3] = Head(obs)
+            /\ \A w2 \in remaining : ~MustPrecede(w2, w)
+            /\ LinExt(t, Tail(obs), remaining \ {w})
+
+IsEmptyDict(t) == t.k = "dict" /\ Len(t.a) = 0
+RECURSIVE RemoveEmptyMD(_)
+RemoveEmptyMD(t) ==
+    LET u == [t EXCEPT !.a = [i \in 1..Len(t.a) |-> RemoveEmptyMD(t.a[i])]] IN
+    IF IsMD(u) /\ IsEmptyDict(u.a[3]) THEN u.a[2] ELSE u
+
 =============================================================================
